@@ -351,7 +351,11 @@ def gen_fn_case(rng):
     rng.shuffle(items)
     over = G.nest(prefix + ['opt'], M(items, tag={'k': k2, 'f': f2}, kw=rng.choice([{}, {}, {'del': False}, {'prio': 1}])))
     over['kw'] = {'new': False}; over['t'] = {'k': 'plain'}
-    return {'docs': [{'raw': base}, {'raw': over}], 'style': ['flow', 0, 0], 'kind': 'F', 'fnpath': prefix + ['opt'], 'old': args, 'new': new}
+    okw = over
+    for k in prefix + ['opt']:
+        okw = next(c for kk, c in okw['m'] if sc_py(kk) == k)
+    return {'docs': [{'raw': base}, {'raw': over}], 'style': ['flow', 0, 0], 'kind': 'F', 'fnpath': prefix + ['opt'], 'old': args, 'new': new,
+            'incoming': keep + new, 'replaces': f1 != f2 and (okw.get('kw') or {}).get('del') is not False}
 
 class C08(MergeFamProp):
     ID = 'C08'
@@ -611,8 +615,10 @@ class C08(MergeFamProp):
                 p = [sc_py(k) for k in NodePath.get_list_path(tree['notnew'])]
             except Exception:
                 return f'MergeError names an unparsable path {tree["notnew"]!r}'
-            if p[:-1] != fnp or p[-1] not in new:
-                return f'MergeError names {tree["notnew"]!r}, expected one of the new arguments {new} of {".".join(fnp)}'
+            # a different target drops the old arguments (documented merge table) unless told to !merge: every incoming argument is new then
+            allowed = case['incoming'] if case['replaces'] else new
+            if p[:-1] != fnp or p[-1] not in allowed:
+                return f'MergeError names {tree["notnew"]!r}, expected one of the arguments {allowed} of {".".join(fnp)} that do not exist there'
         return None
 
     def oracle(self, case, io, ans):
@@ -732,6 +738,8 @@ class C08(MergeFamProp):
         return f
 
     def shrink(self, case):
+        if case.get('kind') == 'F':
+            return            # the case carries what the generator knows about it (old / new argument names): not shrunk
         if case.get('kind') == 'T':
             n = len(case['opts'])
             for i in range(n):
